@@ -2792,8 +2792,9 @@ class Face3D(Base2DIn3D):
         more_to_check = True
         while more_to_check:
             for i, r_face in enumerate(other_faces):
-                if base_face.is_sub_face(r_face, tol, 1):
-                    holes.append(r_face)
+                if base_face.is_sub_face(r_face, tol, 1) and \
+                        not any(h.is_sub_face(r_face, tol, 1) for h in holes):
+                    holes.append(r_face)  # faces inside a hole are islands, not holes
                     del other_faces[i]
                     break
             else:
